@@ -249,7 +249,8 @@ def gen_doc(rng, **opts):
             if k < 0.3:
                 doc['doctype'] = [name, None, None]
             elif k < 0.6:
-                doc['doctype'] = [name, None, rng.choice(['x.dtd', 'http://e/x.dtd', "it's.dtd"])]
+                doc['doctype'] = [name, None, rng.choice(['x.dtd', 'http://e/x.dtd', "it's.dtd", 'x.dtd?a=1&b=2', 'a"b.dtd',
+                                                          'a<b>.dtd'])]
             else:
                 doc['doctype'] = [name, rng.choice(['-//W3C//DTD XHTML 1.0 Strict//EN', '-//X//Y']),
                                   rng.choice(['http://www.w3.org/TR/xhtml1/DTD/xhtml1-strict.dtd', 'y.dtd'])]
